@@ -168,7 +168,12 @@ func validateTimeVal(val rt.Value, factor float64, name string) (uint64, error) 
 	if s <= 0 {
 		return 0, fmt.Errorf("%s must be positive", name)
 	}
-	return uint64(s * factor), nil
+	ms := uint64(s * factor)
+	if ms == 0 {
+		// A positive limit below one millisecond is not "no limit" (0)
+		ms = 1
+	}
+	return ms, nil
 }
 
 const (
